@@ -37,9 +37,44 @@ CHECKS = {
             "Decides the wiring conditions of the covering circulation (arcs along predecessors incl. ties, bounds, costs, "
             "label/closure mapping, decoding driven by positive flow). Optimality itself is not decidable statically "
             "and is not claimed.", "5 C14"),
+    "C04": ("static analysis: indicator/getter pairing and constant names, stage-flow of the final evaluation, coupled-update "
+            "classification, source sets of the from-scratch definitions",
+            "Decides that each reported component is read from its own cache of the end-depot-aligned schedule, that "
+            "the caches are rebuilt together with their data in every producer, and that the definitions use the "
+            "documented inputs. The arithmetic of deltas is not decided.", "5 C04"),
+    "C05": ("static analysis: provenance of the replace_end_depot argument, unconditional-in-loop control dependence, "
+            "stage-flow after the alignment, JSON field provenance",
+            "Decides that every vehicle's new end depot derives from its cycle successor's start depot, unconditionally "
+            "for all vehicles, that depot replacement always rebuilds the tour, that no stage rewrites the schedule after "
+            "the alignment, and that JSON cycles/vehicles come from the same schedule. Index arithmetic is not decided.", "5 C05"),
+    "C08": ("static analysis: constant/aggregate provenance of objective levels, None-operand and strict-acceptance "
+            "checks on rapid_solve MIR, stage-flow of the search start",
+            "Decides level order and coefficients, the unlimited strictly-improving search configuration, the start "
+            "from the improved min-cost-flow solution, and neighbourhood completeness. The trajectory/fixpoint as an "
+            "execution is not decided; the runtime hook suggested by the property is not used.", "5 C08"),
+    "C11": ("static analysis: signature/ownership inventory, compiler Freeze verdict + type walk, unsafe/static inventory, "
+            "error-discipline (T11), who-may-construct",
+            "Decides that candidate generation cannot modify its base (no &mut access, no interior mutability, no globals, "
+            "no unsafe), that modification errors are propagated inside the swaps, and that candidates come only from the "
+            "public modification API. Validity is C10, cache truth is C09, panic-freedom is not decided.", "5 C11"),
+    "C13": ("static analysis: per-producer frame conditions from provenance classification, type-directed hand-back flow, "
+            "callee identity of formation edits",
+            "Decides which fields each modification leaves untouched, that every path cut out of a tour is returned, "
+            "parked or re-inserted, that emptied vehicles are replaced/deleted, and how formations are edited. The effect "
+            "on concrete node sets is not decided.", "5 C13"),
+    "C15": ("static analysis: coupled/lost-update classification of Transition producers, constant agreement of the "
+            "Infinity substitute, guarded arithmetic, objective order and strict acceptance",
+            "Decides the structural bookkeeping conditions for all producers and the shape of the optimisation "
+            "(violation before counter, strictly improving, unlimited). Counter arithmetic and 3-opt slice surgery are "
+            "not decided.", "5 C15"),
     "C16": ("static analysis: stage-flow (backward dependence slices over MIR of the two pipeline functions)",
             "Decides on all paths that each pipeline stage's result feeds the next stage's named operand up to the "
             "returned JSON, in server::solve_instance and its sibling internal::run.", "5 C16"),
+    "C18": ("static analysis: constant route table and layer order from MIR of the server binary, handler result "
+            "provenance, shared-state inventory",
+            "Decides the route table, that the served router carries routes and layer in the right order, that the "
+            "solve handler answers with solve_instance of its own body, and that no mutable state is shared. "
+            "Interleavings, fault isolation and sockets are runtime properties and are not decided.", "5 C18"),
 }
 
 NA = {}
